@@ -809,3 +809,25 @@ mod tests {
         assert_eq!(dec2.value, v);
     }
 }
+
+/// The same layout with every content constraint that does not decide the framing removed: Bool and
+/// C-like enums become plain bytes, strings become byte vectors, every sized composite becomes an opaque
+/// blob of its size and alignment. Tags of UNSIZED enums stay (the variant decides how many bytes follow).
+/// `decode(&lenient(d), bytes)` therefore says whether a message is COMPLETE (all the bytes its own length
+/// fields announce are there) regardless of whether its content is well-formed.
+pub fn lenient(d: &Desc) -> Desc {
+    if d.is_sized() {
+        return match d {
+            Desc::Unit => Desc::Unit,
+            _ => Desc::Prim { size: d.size(), align: d.align() },
+        };
+    }
+    match d {
+        Desc::Vec { elem, len } => Desc::Vec { elem: Box::new(lenient(elem)), len: len.clone() },
+        Desc::Str { len } => Desc::Vec { elem: Box::new(Desc::Prim { size: 1, align: 1 }), len: len.clone() },
+        Desc::Flex { item, len } => Desc::Flex { item: Box::new(lenient(item)), len: len.clone() },
+        Desc::Struct { fields, sized } => Desc::Struct { fields: fields.iter().map(lenient).collect(), sized: *sized },
+        Desc::Enum { tag, variants, sized, default } => Desc::Enum { tag: *tag, variants: variants.iter().map(|v| v.iter().map(lenient).collect()).collect(), sized: *sized, default: *default },
+        other => other.clone(),
+    }
+}
